@@ -8,10 +8,14 @@ pub mod c04;
 pub mod c05;
 pub mod c06;
 pub mod c07;
+pub mod c08;
 pub mod c09;
+pub mod c10;
 pub mod c11;
 pub mod c12;
 pub mod c13;
+pub mod c14;
+pub mod c15;
 pub mod c16;
 pub mod c17;
 pub mod c20;
@@ -26,10 +30,14 @@ macro_rules! dispatch {
             "C05" => $f(c05::C05, $($arg),*),
             "C06" => $f(c06::C06, $($arg),*),
             "C07" => $f(c07::C07, $($arg),*),
+            "C08" => $f(c08::C08, $($arg),*),
             "C09" => $f(c09::C09, $($arg),*),
+            "C10" => $f(c10::C10, $($arg),*),
             "C11" => $f(c11::C11, $($arg),*),
             "C12" => $f(c12::C12, $($arg),*),
             "C13" => $f(c13::C13, $($arg),*),
+            "C14" => $f(c14::C14, $($arg),*),
+            "C15" => $f(c15::C15, $($arg),*),
             "C16" => $f(c16::C16, $($arg),*),
             "C17" => $f(c17::C17, $($arg),*),
             "C20" => $f(c20::C20, $($arg),*),
